@@ -144,6 +144,7 @@ def _scenarios_of(pid):
 
 PROPS["C01"]["extra"] = [("multi_connection_scenarios", _scenarios_of("C01"))]
 PROPS["C12"]["extra"] = [("multi_connection_scenarios", _scenarios_of("C12"))]
+PROPS["C19"]["extra"] = [("real_socket_scenarios", _scenarios_of("C19"))]
 
 PROPS["C13"]["kinds"] = ["lmtp", "c13x"]
 PROPS["C17"]["kinds"] = ["reply", "c17conv"]
